@@ -103,6 +103,25 @@ def rule_collect(prog, rep):
             rep.finding("C33.COLLECT", f.name, what,
                         "the %s arm of collect_fields recurses with (%s) [same concrete type: %s, own selections: %s, condition on the concrete type: %s]: response keys selected through nested type conditions are dropped or added" % (
                             what, ", ".join(x[:60] for x in s), same_type, sel, cond), c.loc())
+    # merging: what a fragment contributes is *added* to the group already collected under the same
+    # response key (CollectFields appends to groupForResponseKey).  The recursive call's map must be
+    # consumed entry by entry into `collected.entry(key).or_default()`; handing it to
+    # IndexMap::extend / insert replaces the group collected so far.
+    for c, what in ((spread[0], "FragmentSpread"), (inline[0], "InlineFragment")):
+        res = "call:" + f.apath_s(c.dest).split("call:")[-1] if "call:" in f.apath_s(c.dest) else None
+        replaced = [x for x in f.live_calls() if re.search(r"Extend<\(K, V\)>>::extend$|IndexMap::<K, V, S>::(insert|insert_full|extend)$|IndexMap<K, V, S> as std::iter::Extend", x.name + " " + x.orig_name)
+                    and any(("collect_fields(" in f.sym(a) and ("FragmentSpread" in f.sym(a)) == (what == "FragmentSpread")) for a in x.args[1:])]
+        merged = [x for x in f.live_calls() if re.search(r"Vec::<T, A>::(append|extend|extend_from_slice)$|Vec<T, A> as std::iter::Extend", x.name + " " + x.orig_name)
+                  and re.search(r"Entry::or_default\(IndexMap::entry\(", f.sym(x.args[0]))
+                  and "collect_fields(" in f.sym(x.args[1]) and ("FragmentSpread" in f.sym(x.args[1])) == (what == "FragmentSpread")]
+        ok = bool(merged) and not replaced
+        rep.obligation(ok)
+        if ok:
+            rep.instance("C33.COLLECT", "%s: the fields it contributes are appended to the group already collected under the same response key" % what)
+        else:
+            rep.finding("C33.COLLECT", f.name, "merge:" + what,
+                        "the fields collected from a %s are %s: a group already collected under the same response key is replaced, so sub-selections of the earlier occurrences are missing from the generated response" % (
+                            what, "given to `%s` on the result map" % replaced[0].name.split("::")[-1] if replaced else "not appended to `collected.entry(key).or_default()`"), c.loc())
     ent = [c for c in f.live_calls() if c.name.endswith("IndexMap::<K, V, S>::entry")]
     push = [c for c in f.live_calls() if c.name.endswith("Vec::<T, A>::push")]
     ok = len(push) == 1 and re.search(r"to_string\(&\*Option::unwrap_or\(Option::as_ref\(&\*<Node<T> as Deref>::deref\(&\*%s\.as:Field\.0\)\.alias\), &\*<Node<T> as Deref>::deref\(&\*%s\.as:Field\.0\)\.name\)\)" % (SEL, SEL), f.sym(push[0].args[0])) is not None
